@@ -100,6 +100,24 @@ type glSpec struct {
 	NilRegions bool       `json:"nil_regions_map,omitempty"`
 }
 
+// hasParentCycle reports whether some style inherits, directly or not, from itself.
+func (g glSpec) hasParentCycle() bool {
+	parent := map[string]string{}
+	for _, st := range g.Styles {
+		parent[st.ID] = st.Parent
+	}
+	for id := range parent {
+		cur := id
+		for n := 0; cur != "" && n <= len(parent); n++ {
+			cur = parent[cur]
+			if cur == id {
+				return true
+			}
+		}
+	}
+	return false
+}
+
 func (g glSpec) build() *astisub.Subtitles {
 	s := &astisub.Subtitles{}
 	if !g.NilStyles {
@@ -302,6 +320,11 @@ func genGL(t *rapid.T, hostile bool) glSpec {
 			st.VTTAlign = "center"
 		}
 		g.Styles = append(g.Styles, st)
+	}
+	if ns > 0 && p("parentcycle", 25) {
+		// nothing in the public types keeps a style from inheriting from itself or from one of its heirs
+		i := rapid.IntRange(0, ns-1).Draw(t, "cyclicstyle")
+		g.Styles[i].Parent = ids[rapid.IntRange(i, ns-1).Draw(t, "cyclicparent")]
 	}
 	nr := rapid.IntRange(0, 3).Draw(t, "nregions")
 	for i := 0; i < nr; i++ {
